@@ -19,6 +19,12 @@ table equals the number printed in that column of that row (independent
 evaluation of the same cells: sign * digits * 10**exponent), that blank
 trailing cells read as 0, that keys are the printed names, and that the
 row-name / row-index / column-name (and reversed-key) ways of addressing agree.
+
+task_setup runs the real setup_table_* and read_table_* on a miniature table in
+memory, reads it at two successive result times into the same table object
+(nothing may survive from the first time), and for generation tables of the
+TOUGH2 family does so with every order of three row widths (the real code
+chooses the row it infers the column positions from).
 """
 import io
 import os
@@ -555,7 +561,7 @@ def width_base(R, ncols):
 def _wtag(w): return 'as-printed' if w is None else ','.join(str(x) for x in w)
 
 
-def task_setup(rel, ti, symrow, nother, widths=None, widths2=None, pick=None):
+def task_setup(rel, ti, symrow, nother, widths=None, widths2=None, pick=None, symnames=True):
     """The real setup_table_AUTOUGH2 / setup_table_TOUGH2 (as bound by detect_simulator)
     builds the table from a miniature listing table holding the chosen rows; then the real
     read_table_* fills it, and fills it AGAIN from the same table as printed at a second
@@ -572,7 +578,8 @@ def task_setup(rel, ti, symrow, nother, widths=None, widths2=None, pick=None):
     Obligations: every row name is the tuple of repaired (a3,i2) forms of the printed names -
     single- and multi-key tables alike -, the table addressed by that name returns the row
     addressed by index, and after each of the two reads every cell is the number printed in that
-    row and column AT THAT TIME (blank trailing cells 0)."""
+    row and column AT THAT TIME (blank trailing cells 0).
+    symnames = False: names as printed (the width shapes; the symbolic names fork every lookup)."""
     ld = _load()
     R = setup_rows(rel, ti, nother, pick)
     fam, tab, rows, li, sel, kp = R['fam'], R['tab'], R['rows'], R['li'], R['sel'], R['kp']
@@ -605,7 +612,7 @@ def task_setup(rel, ti, symrow, nother, widths=None, widths2=None, pick=None):
     # symbolic row (first time), and the same row at the second time: same names, fresh digits
     srow, cons = symbolize('s', text, toks1[ks], set())
     cells = list(srow.cells)
-    for p in kp:
+    for p in (kp if symnames else ()):
         for off, dom in ((2, ({ord(text[p + 2])} | _DIG)), (3, ({32} | _DIG)), (4, _DIG)):
             e = z3.Int('s.k%d' % (p + off))
             dom = frozenset(dom)
@@ -739,7 +746,11 @@ def task_setup(rel, ti, symrow, nother, widths=None, widths2=None, pick=None):
             if bad:
                 lab = bad[0][0]
                 m = ([f_ for f_ in c.failures if f_['label'] == lab] or [dict(model=None)])[-1]['model']
-                failures.append(dict(key='%s/%s' % (base_key, lab), what='%s %s table: %s fails after setup_table + read_table%s' % (
+                klab = lab
+                if tname and max(len(toks2[k]) for k in sel) > max(len(toks1[k]) for k in sel):
+                    # input class: a row prints more numbers at the second time than any row did when the table was set up
+                    klab = lab + ':row-wider-than-table-at-first-time'
+                failures.append(dict(key='%s/%s' % (base_key, klab), what='%s %s table: %s fails after setup_table + read_table%s' % (
                                          rel, kind, lab, ' at the first and then the second result time' if tname else ''),
                                      replay=rdata(m, lab)))
                 return 'differs'
@@ -837,8 +848,8 @@ def build_tasks(tier):
             R = setup_rows(rel, ti, 2)
             if t['kind'] == 'generation':
                 for w1, w2 in width_shapes(rel, ti, tier):
-                    for sr in ((1,) if tier == 'quick' else range(len(w1))):
-                        tasks.append((task_setup, dict(rel=rel, ti=ti, symrow=sr, nother=2, widths=w1, widths2=w2)))
+                    for sr in range(len(w1)):
+                        tasks.append((task_setup, dict(rel=rel, ti=ti, symrow=sr, nother=2, widths=w1, widths2=w2, symnames=False)))
                         nshape += 1
             # rows whose printed width differs between the first two result times of the shipped file
             if any(k != R['li'] for k, a, b in R['changes']):
@@ -866,7 +877,7 @@ def width_shapes(rel, ti, tier):
     if tier == 'thorough' and n >= 3 and sorted(set([n - 2, n - 1, n])) not in sets: sets.append([n - 2, n - 1, n])
     out = []
     for W in sets:
-        if nsel == 1: multis = [(W[-1],)] + ([(W[0],)] if tier == 'thorough' else [])
+        if nsel == 1: multis = [(W[-1],)] + ([(W[0],)] if tier == 'thorough' and W is sets[0] else [])
         elif nsel == 2: multis = [(W[0], W[-1])]
         elif len(W) >= 3: multis = [tuple(W[:3])]
         else: multis = [(W[0], W[1], W[1])] + ([(W[0], W[0], W[1])] if tier == 'thorough' else [])
@@ -958,13 +969,28 @@ def run(tier, seed, rep):
                                       'every table of each file; in each of the 3 rows in turn') +
         ' the characters in columns 3, 4, 5 of every name are symbolic (column 3: printed character or any digit, column 4: blank or any digit, '
         'column 5: any digit) together with the digits of its numbers; names of the other rows, columns 1-2 and the row index as printed',
+        'two result times (every task_setup task): after the first read the real read_table_* fills the SAME table object again from the table '
+        'as printed at a second time - the rows of the same names at the second result time of the shipped file where it has one (TOUGH2 family), '
+        'else the first-time text - with the digits of the symbolic row independent of those at the first time; every cell must then be the '
+        'number printed at the second time (blank trailing cells 0)',
+        'row widths (%d tasks): for every generation table of the TOUGH2 family (which may print incomplete lines) the real setup_table_TOUGH2 / '
+        'read_table_TOUGH2 run on miniature tables whose rows print chosen numbers of numbers: every order of three widths {1, middle, number of '
+        'header columns}%s over the (<= 3) rows, and at the second time the widths rotated by one row (every row changes width, at least one prints '
+        'fewer numbers than before); each row in turn has symbolic digits; names as printed' % (
+            nshape, '' if tier == 'quick' else ' and of the three largest widths'),
+        'rows of shipped tables whose printed width differs between the first two result times (%d tasks: TOUGH2/7 generation): longest row, first '
+        'shrinking row, first growing row, read at the first and then the second time, each row in turn symbolic' % nchange,
     ]
     rep.outside += [
         'whole-file scanning: simulator detection is run concretely only to bind the per-simulator methods; setup_pos, setup_tables, '
-        'internal headers, next_table, read_tables, skip_tables, multi-time reading, history() and the '
+        'internal headers, next_table, read_tables, skip_tables, moving between result times through the file (index / next / positions; '
+        'only two successive reads of one table into the same table object are checked), more than two times, history() and the '
         'TOUGH2_MP row reordering / duplicate rows (row_line) are not part of this claim; setup_table_* / read_table_* are executed '
         'only on a miniature in-memory table of 3 rows (task_setup)',
-        'choice of the longest row by setup_table_TOUGH2 on a full table (in task_table the harness takes the longest row of the first block itself)',
+        'choice of the longest row by setup_table_TOUGH2 on a full table (in task_table the harness takes the longest row of the first block itself; '
+        'task_setup leaves the choice to the real code, on 3 rows, with all orders of three widths for generation tables)',
+        'row widths other than printed are formed only for generation tables (the reader documents incomplete lines only there); rows of more than 3 '
+        'different widths, trailing blanks after the last number of an incomplete line',
         'row index field (int(indexstr)) and rows beyond the first block of each table',
         'IEEE rounding of float(): values are exact rationals sign*digits*10^exponent',
     ]
@@ -977,6 +1003,9 @@ def run(tier, seed, rep):
         'table header parsing (parse_table_header_*) and detect_simulator run concretely on the shipped text',
         'task_setup: the names of the rows of a table are pairwise distinct (asserted on the path); the in-memory file stub provides only '
         'readline/tell/seek on a list of lines; findall(\'\\.[0-9]+\') is counted on concrete points followed by a digit-class cell',
+        'rows of chosen widths: names and index of the shipped row followed by the first w number fields of the longest row of the block, whose last '
+        'field is repeated up to the number of header columns (fields of one table have one format); an incomplete line ends at its last number; '
+        'the block names of a row are the same at both result times',
     ]
     rep.functions.update(['t2listing.py:t2listing.start_of_values', 't2listing.py:t2listing.key_positions',
                           't2listing.py:t2listing.parse_table_line', 't2listing.py:t2listing.read_table_line_TOUGH2',
